@@ -7,6 +7,7 @@ open PyFile
 open Window
 open FileIface
 open CtrIO
+open CbcIO
 open Driver_base
 
 let opt f = function None -> "-" | Some x -> f x
@@ -103,11 +104,44 @@ let run_ctr toks =
     end
   | _ -> failwith "ctr args"
 
+let parse_bops (toks : string list) : bop list =
+  let rec go toks acc =
+    match toks with
+    | [] -> Stdlib.List.rev acc
+    | "r" :: n :: r -> go r (BRead (z_of_hex n) :: acc)
+    | "s" :: o :: wh :: r -> go r (BSeek (z_of_hex o, z_of_hex wh) :: acc)
+    | "t" :: r -> go r (BTell :: acc)
+    | t :: _ -> failwith ("cbc op " ^ t) in
+  go toks []
+
+let show_bres (r : bres) : string =
+  match r with
+  | BBytes b -> hex_of_bytes b
+  | BInt n -> "i:" ^ hex_of_z n
+  | BErr e -> "e:" ^ err_name e
+
+(* cbc <plain|window> <off> <sz> <key> <iv> <base> ops... *)
+let run_cbc toks =
+  match toks with
+  | kind :: off :: sz :: key :: iv :: base :: ops ->
+    let key = bytes_of_hex key and iv = bytes_of_hex iv and ops = parse_bops ops in
+    let f0 = { fdata = bytes_of_hex base; fpos = Z0 } in
+    if kind = "plain" then begin
+      let (rs, s) = cbc_run aes_dec pyfile_ops key iv f0 ops in
+      String.concat " " (Stdlib.List.map show_bres rs) ^ " | " ^ hex_of_bytes s.fdata
+    end else begin
+      let u = WindowProofs.window_ops (z_of_hex off) (z_of_hex sz) in
+      let (rs, s) = cbc_run aes_dec u key iv { wbase = f0; wseek = Z0 } ops in
+      String.concat " " (Stdlib.List.map show_bres rs) ^ " | " ^ hex_of_bytes s.wbase.fdata
+    end
+  | _ -> failwith "cbc args"
+
 let dispatch (line : string) : string =
   match String.split_on_char ' ' (String.trim line) with
   | "engine" :: toks -> run_engine toks
   | "window" :: toks -> run_window toks
   | "ctr" :: toks -> run_ctr toks
+  | "cbc" :: toks -> run_cbc toks
   | e :: _ -> failwith ("unknown entry " ^ e)
   | [] -> ""
 
